@@ -161,3 +161,111 @@ def canon_name(name: str, table: dict) -> str:
             table[stem] = f"U{len(table)}"
         return name.replace(stem, table[stem])
     return name
+
+
+# ---------------------------------------------------------------------------
+# finite prefixes of (possibly repeating) streams, with a watchdog
+# ---------------------------------------------------------------------------
+class Watchdog(Exception):
+    pass
+
+
+def with_alarm(seconds: int, fn):
+    """Run fn() in the main thread of the process under SIGALRM."""
+    import signal
+
+    def onalarm(signum, frame):
+        raise Watchdog(f"no result within {seconds}s")
+
+    old = signal.signal(signal.SIGALRM, onalarm)
+    signal.alarm(seconds)
+    try:
+        return fn()
+    finally:
+        signal.alarm(0)
+        signal.signal(signal.SIGALRM, old)
+
+
+def take(ds, split, iface, k, **kw) -> list:
+    """First k examples of the stream (repeat defaults to the library's
+    default, i.e. True)."""
+    kw.setdefault("shuffle", 0)
+    out = []
+    if iface in ("sync", "concurrent", "rust"):
+        if iface != "sync":
+            kw.setdefault("file_parallelism", 2)
+        fn = {"sync": ds.as_numpy_iterator,
+              "concurrent": ds.as_numpy_iterator_concurrent,
+              "rust": ds.as_numpy_iterator_rust}[iface]
+        gen = fn(split=split, **kw)
+        try:
+            for e in gen:
+                out.append(e)
+                if len(out) >= k:
+                    break
+        finally:
+            gen.close()
+        return out
+    if iface == "async":
+        kw.setdefault("file_parallelism", 2)
+
+        async def go():
+            agen = ds.as_numpy_iterator_async(split=split, **kw)
+            try:
+                async for e in agen:
+                    out.append(e)
+                    if len(out) >= k:
+                        break
+            finally:
+                await agen.aclose()
+
+        asyncio.run(go())
+        return out
+    if iface == "tf":
+        kw.setdefault("batch_size", 0)
+        kw.setdefault("file_parallelism", 2)
+        kw.setdefault("parallelism", 1)
+        tfds = ds.as_tfdataset(split=split, **kw)
+        return list(tfds.take(k).as_numpy_iterator())
+    raise ValueError(iface)
+
+
+# ---------------------------------------------------------------------------
+# inotify (IN_OPEN) through ctypes: counts shard opens by native readers
+# ---------------------------------------------------------------------------
+class OpenCounter:
+    IN_OPEN = 0x20
+
+    def __init__(self, root: Path) -> None:
+        import ctypes
+        import os
+        self.libc = ctypes.CDLL("libc.so.6", use_errno=True)
+        self.fd = self.libc.inotify_init1(os.O_NONBLOCK)
+        self.names = {}
+        for d in [root] + [p for p in root.rglob("*") if p.is_dir()]:
+            wd = self.libc.inotify_add_watch(self.fd, str(d).encode(),
+                                             self.IN_OPEN)
+            self.names[wd] = d
+
+    def read(self) -> int:
+        """Number of IN_OPEN events on shard files since the last call."""
+        import os
+        import struct
+        n = 0
+        while True:
+            try:
+                buf = os.read(self.fd, 65536)
+            except BlockingIOError:
+                break
+            i = 0
+            while i < len(buf):
+                wd, mask, cookie, ln = struct.unpack_from("iIII", buf, i)
+                name = buf[i + 16:i + 16 + ln].split(b"\0")[0].decode()
+                i += 16 + ln
+                if name.endswith((".fb", ".npz", ".tfrec")):
+                    n += 1
+        return n
+
+    def close(self) -> None:
+        import os
+        os.close(self.fd)
